@@ -2150,17 +2150,11 @@ class _FormatInferInstance(Visitor):
             return SetFormat.from_value(Fraction(0))
 
         elt_fmt = arg_fmt.elt
-        # Single-element reduction: ``sum([x])`` evaluates to
-        # ``round_C(x)``.  Tighten to ``elt_fmt`` when it fits under
-        # the scope; otherwise the round may not be the identity.
         if n == 1:
-            if isinstance(elt_fmt, SetFormat):
-                fitted = self._bound_if_fits(e, elt_fmt)
-            elif isinstance(elt_fmt, AbstractableFormat):
-                fitted = self._bound_if_fits(e, AbstractFormat.from_format(elt_fmt))
-            else:
-                fitted = None
-            return fitted if fitted is not None else self._op_bound(e)
+            # One element, no addition: the interpreter returns the element as it
+            # is -- it is *not* rounded under the active context (`sum([2.5])`
+            # under an integer context is 2.5) -- so its format is the answer.
+            return elt_fmt
 
         # ``n >= 2``: simulate ``n - 1`` pairwise additions through
         # AbstractFormat, then check the final accumulator against the
